@@ -6,7 +6,7 @@
    denC gives sqrt/log their principal complex branches; wdC is well-definedness (no 1/0,
    no log 0, relational operands real).  s, m1, m2, m are real; envS/envE bind the symbols. *)
 From AV Require Import DenC.
-From AVchk Require Import Gen_C11 C11_lemmas C11_glue.
+From AVchk Require Import Gen_C11 Gen_C11py C11_lemmas C11_glue C11_pycode.
 From Coq Require Import Lra.
 Open Scope C_scope.
 
@@ -94,6 +94,34 @@ Theorem C11_equalmass_undefined_at_threshold : forall m : R, (0 < m)%R ->
   ~ wdC (envE (4 * m ^ 2) m) gen_eqm_eq.
 Proof. exact eqm_undefined_at_threshold. Qed.
 
+(* ---- 7. pure-Python (`math`) backend: the code text printed by ComplexSqrt._pythoncode for the
+        current source (Gen_C11py: parsed back with Python's own grammar, real float/int arguments)
+        is the principal square root with +i sqrt(-x) for x < 0 - for a symbol and for compound
+        arguments (operator precedence of the emitted text matters) - in all three regions
+        x < 0, x = 0, x > 0; and the printed Complex variant = i * the printed Abs variant in the gap ---- *)
+Theorem C11_pycode_complexsqrt_symbol : forall x : R,
+  wdC (envX x) gen_py_csqrt_sym /\ denC (envX x) gen_py_csqrt_sym = Csqrt (RtoC x).
+Proof. exact py_csqrt_sym. Qed.
+Theorem C11_pycode_complexsqrt_sum : forall a b : R,
+  wdC (envAB a b) gen_py_csqrt_sum /\ denC (envAB a b) gen_py_csqrt_sum = Csqrt (RtoC (a + b)).
+Proof. exact py_csqrt_sum. Qed.
+Theorem C11_pycode_complexsqrt_difference : forall a b : R,
+  wdC (envAB a b) gen_py_csqrt_diff /\ denC (envAB a b) gen_py_csqrt_diff = Csqrt (RtoC (a - b)).
+Proof. exact py_csqrt_diff. Qed.
+Theorem C11_pycode_complexsqrt_product : forall a b : R,
+  wdC (envAB a b) gen_py_csqrt_prod /\ denC (envAB a b) gen_py_csqrt_prod = Csqrt (RtoC (a * b)).
+Proof. exact py_csqrt_prod. Qed.
+Theorem C11_pycode_complex_is_i_abs : forall s m1 m2 : R,
+  (0 < m1)%R -> (0 < m2)%R -> ((m1 - m2) ^ 2 < s < (m1 + m2) ^ 2)%R ->
+  wdC (envS s m1 m2) gen_py_cpx /\ wdC (envS s m1 m2) gen_py_abs /\
+  denC (envS s m1 m2) gen_py_cpx = Ci * denC (envS s m1 m2) gen_py_abs.
+Proof. exact py_cpx_is_i_abs. Qed.
+Theorem C11_pycode_complex_is_i_abs_equal_mass_tree : forall s m : R,
+  (0 < m)%R -> (0 < s < 4 * m ^ 2)%R ->
+  wdC (envE s m) gen_py_cpx_mm /\ wdC (envE s m) gen_py_abs_mm /\
+  denC (envE s m) gen_py_cpx_mm = Ci * denC (envE s m) gen_py_abs_mm.
+Proof. exact py_cpx_is_i_abs_mm. Qed.
+
 (* ---- 6. the premises are satisfiable ---- *)
 Example C11_premise_above : (0 < 3/10 /\ 0 < 1/2 /\ (3/10 + 1/2) ^ 2 < 2)%R.
 Proof. lra. Qed.
@@ -126,3 +154,9 @@ Print Assumptions C11_equalmass_eq_swave_general_trees.
 Print Assumptions C11_continuous_at_threshold.
 Print Assumptions C11_swave_value_at_threshold.
 Print Assumptions C11_equalmass_undefined_at_threshold.
+Print Assumptions C11_pycode_complexsqrt_symbol.
+Print Assumptions C11_pycode_complexsqrt_sum.
+Print Assumptions C11_pycode_complexsqrt_difference.
+Print Assumptions C11_pycode_complexsqrt_product.
+Print Assumptions C11_pycode_complex_is_i_abs.
+Print Assumptions C11_pycode_complex_is_i_abs_equal_mass_tree.
